@@ -717,6 +717,9 @@ func c20BroadcastPrecedes(w *World, wire *wireView, serve *ssa.Function, bc *ssa
 	}
 	n := 0
 	for _, g := range w.Tree(serve) {
+		if g != serve && pureHelper(g) {
+			continue // a function that only names the code (for a log line) is not work of an arm
+		}
 		for _, b := range g.Blocks {
 			s := flow.in[b]
 			if !flow.known[b] || s.empty() || s.full() || !effectful(b) {
